@@ -209,16 +209,25 @@ impl BlobStore for PlainBlobStore {
         let id = self.next_record_id();
         let path = self.file_path(id);
 
-        let mut file = File::create(&path).map_err(|e| {
-            ZiporaError::io_error(format!("Failed to create blob file {:?}: {}", path, e))
+        // Write under a temporary name (ignored by scan_directory: not a record id) and rename it
+        // into place once it is complete and synced, so that an interrupted put never leaves a
+        // partial record visible under its final name
+        let tmp_path = path.with_extension("tmp");
+        let mut file = File::create(&tmp_path).map_err(|e| {
+            ZiporaError::io_error(format!("Failed to create blob file {:?}: {}", tmp_path, e))
         })?;
 
         file.write_all(data).map_err(|e| {
-            ZiporaError::io_error(format!("Failed to write blob file {:?}: {}", path, e))
+            ZiporaError::io_error(format!("Failed to write blob file {:?}: {}", tmp_path, e))
         })?;
 
         file.sync_all().map_err(|e| {
-            ZiporaError::io_error(format!("Failed to sync blob file {:?}: {}", path, e))
+            ZiporaError::io_error(format!("Failed to sync blob file {:?}: {}", tmp_path, e))
+        })?;
+        drop(file);
+
+        fs::rename(&tmp_path, &path).map_err(|e| {
+            ZiporaError::io_error(format!("Failed to publish blob file {:?}: {}", path, e))
         })?;
 
         self.stats.record_put(data.len());
